@@ -23,7 +23,7 @@ func init() {
 			ruleF8(c)
 			ruleS2S3(c) // a plugin failing during registration does not leave the sync gate locked
 		},
-		explanation: "The fault space and the time bound are not statically reachable.  Decided is the handling structure every fault ends up in: every plugin RPC is made with a context derived by context.WithTimeout from the configured request timeout and its cancel is deferred; the fatal-error classification covers connection closed, server closed, protocol error and deadline exceeded; all relays agree — on an RPC error that is fatal the plugin is closed and the relay returns no reply and no error (the request continues), otherwise it returns exactly that error and no reply; every request method prunes closed plugins on every exit while still holding the adaptation lock, keeping exactly the plugins that are not closed; a relay error or merge error is tested before any use of the reply and returns (nil, err) at once; closing a plugin is idempotent and locked; the global lock-order graph over all locks of the adaptation, stub, net and multiplex packages has no cycle and no re-entrant acquisition. A plugin failing during registration releases the sync gate on every path. The context a request method hands to a relay is the request's own; the only error a relay ever returns is the handler's.",
+		explanation: "The fault space and the time bound are not statically reachable.  Decided is the handling structure every fault ends up in: every plugin RPC is made with a context derived by context.WithTimeout from the configured request timeout and its cancel is deferred; the fatal-error classification covers connection closed, server closed, protocol error and deadline exceeded; all relays agree — on an RPC error that is fatal the plugin is closed and the relay returns no reply and no error (the request continues), otherwise it returns exactly that error and no reply; every request method prunes closed plugins on every exit while still holding the adaptation lock, keeping exactly the plugins that are not closed; a relay error or merge error is tested before any use of the reply and returns (nil, err) at once; closing a plugin is idempotent and locked; the global lock-order graph over all locks of the adaptation, stub, net and multiplex packages has no cycle and no re-entrant acquisition. A plugin failing during registration releases the sync gate on every path. The context a request method hands to a relay is the request's own; the only error a relay ever returns is the handler's. The timeout setters store exactly what they are given.",
 		notDecided: []string{
 			"latency and the numeric bound (plugins x timeout)",
 			"that a cut connection surfaces as one of the four fatal errors (ttRPC)",
@@ -78,6 +78,27 @@ func ruleF1(c *Ctx) {
 			}
 			c.ok("F1", key, ci.Pos(), bad == "", what, bad)
 		}
+	}
+	// the configured timeout is the timeout: the setter stores exactly its argument
+	for _, sn := range []string{"SetPluginRequestTimeout", "SetPluginRegistrationTimeout"} {
+		sf := m.fnOpt(pkgAdapt, sn)
+		if sf == nil {
+			continue
+		}
+		okS := false
+		nStores := 0
+		for _, b := range sf.Blocks {
+			for _, in := range b.Instrs {
+				if st, ok := in.(*ssa.Store); ok {
+					if _, isG := st.Addr.(*ssa.Global); isG {
+						nStores++
+						okS = st.Val == ssa.Value(sf.Params[0])
+					}
+				}
+			}
+		}
+		c.ok("F1", "setter/"+sn, sf.Pos(), okS && nStores == 1, sn+" stores exactly the duration it is given",
+			"the setter stores something other than its argument (a clamped or defaulted value): the bound 'plugins x request timeout' is then not the configured one — a hanging plugin is dropped later than configured")
 	}
 	// each plugin gets its own full timeout: the context a request method hands to a relay is the request's own,
 	// not one whose deadline was started in the request method (shared by, or chained across, the plugins)
